@@ -321,8 +321,13 @@ DevRecvAfterDisc(o) ==
   /\ RecvOneEff(o)
   /\ devs' = devs \cup {"F24"}
 
+\* Silent steps are only explored right before a record that observes or changes
+\* the abstract state: a linearization step commutes with `call`, `pend` and `wake`
+\* records (they only add operations or flags), so it can always be postponed past
+\* them.  This keeps the search small without losing any explanation.
 LinStep ==
   /\ l <= N
+  /\ Rec[l].k \notin {"call", "pend", "wake", "new"}
   /\ \/ /\ \E o \in DOMAIN pend : SendOne(o) /\ UNCHANGED disc
         /\ UNCHANGED <<devs, aux>>
      \/ /\ \E o \in DOMAIN pend : SendDone(o) \/ SendClosed(o) \/ SendSent(o) \/ SendFull(o) \/ RecvDone(o)
